@@ -13,7 +13,7 @@ MODULE = "DfolsVerif.Properties.C04"
 BUILD_TARGETS = ss.ACCEPT_TARGETS + ["DfolsVerif.Driver.RadiusDrv"]
 THEOREMS = ["Dfols.C04.C04_best", "Dfols.C04.C04_hist_complete", "Dfols.C04.C04_restart_monotone",
             "Dfols.C04.C04_ratio_gate", "Dfols.C04.C04_negative_pred_exits", "Dfols.C04.gen_calcRatio_eq",
-            "Dfols.C04.gen_mayReplaceKopt_eq", "Dfols.C04.gen_skipKopt_guards", "Dfols.C04.C04_gen_ratio_gate", "Dfols.C04.gen_model_decisions", "Dfols.C04.gen_restart_merge", "Dfols.C04.C04_src_no_point_dropped", "Dfols.C04.C04_src_controller_no_point_dropped"]
+            "Dfols.C04.gen_mayReplaceKopt_eq", "Dfols.C04.gen_skipKopt_guards", "Dfols.C04.C04_gen_ratio_gate", "Dfols.C04.gen_model_decisions", "Dfols.C04.gen_restart_merge", "Dfols.C04.C04_src_no_point_dropped", "Dfols.C04.C04_src_controller_no_point_dropped", "Dfols.C04.C04_src_returns_via_final_results"]
 TRUSTED_EXTRA = [
     "AST-to-Lean translator harness/gen_kernels.py for calculate_ratio's decision tail and the skip_kopt=False gate; the definitions of pred_reduction / actual_reduction (numpy reductions) are inputs of the kernel, recomputed by the tracer with the package's own helpers",
     "model = event lists accepted by BookAcc.step; theorem for traces without sample averaging and without a regulariser",
@@ -26,6 +26,7 @@ def pre_build(ctx):
     import gen_skeleton
     gen_skeleton.regenerate(ctx)
     gen_skeleton.regenerate_ctrl(ctx)
+    gen_skeleton.regenerate_solve_main(ctx)
     import gen_kernels
     ctx.cov["translated_kernels"] = gen_kernels.regenerate(ctx) + gen_kernels.regenerate_model(ctx)
 
